@@ -11,6 +11,14 @@ Local Open Scope char_scope.
 Definition tmpl_flag (k:obj) (insts:list obj) : Z :=
   if mandatory (ooptional k) then 0%Z else match insts with [] => 1%Z | _ => (-1)%Z end.
 
+(* the value of a deprecated (non-choice) definition is shown only if its strings differ from the
+   master's: "deprecated definitions appear only if a source gave a different value" *)
+Definition is_choice_ty (a:attrs) : bool :=
+  match get_attr (s_ "type") a with AType (TyChoice _) => true | _ => false end.
+Definition dep_ok (h:hdr) (mws:list word) (a:attrs) (w:list word) : Prop :=
+  odeprecated (Def h mws a) = true -> is_choice_ty a = false ->
+  sval_eqb (strings_from_words w) (strings_from_words mws) = false.
+
 (* shape_block k b : b is what the master entry k may contribute to a result.
    Every result object carries k's header (name, not disabled, merge flag, primary id, where line)
    with is_template 0 and k's attribute list, unchanged; only words / child objects vary. *)
@@ -21,7 +29,7 @@ Inductive shape_block : obj -> list obj -> Prop :=
       shape_block (Def h ws a) [Def h ws a]
   (* non-multiple definition with a value: exactly one definition, the master's header and attributes *)
   | SB_def_value : forall h ws a ws',
-      omultiple (Def h ws a) = false ->
+      omultiple (Def h ws a) = false -> dep_ok h ws a ws' ->
       shape_block (Def h ws a) [Def (with_tmpl h 0) ws' a]
   (* the documented omission: a deprecated definition nobody changed *)
   | SB_def_deprecated : forall h ws a,
@@ -39,6 +47,7 @@ Inductive shape_block : obj -> list obj -> Prop :=
 with shape_insts : obj -> list obj -> Prop :=
   | SI_nil : forall k, shape_insts k []
   | SI_def : forall h ws a ws' r,
+      dep_ok h ws a ws' ->
       shape_insts (Def h ws a) r -> shape_insts (Def h ws a) (Def (with_tmpl h 0) ws' a :: r)
   | SI_scope : forall h ks a os r,
       shape_objs ks os -> shape_insts (Scp h ks a) r ->
@@ -56,7 +65,7 @@ Definition shape_ok (m r:list obj) : Prop := shape_objs m r.
 (* an instance of the (multiple) master entry k *)
 Definition is_inst (k c:obj) : Prop :=
   match k with
-  | Def h _ a => exists w, c = dcopy h a w
+  | Def h mws a => exists w, c = dcopy h a w /\ dep_ok h mws a w
   | Scp h ks a => exists os, c = scopy h a os /\ shape_objs ks os
   end.
 
@@ -66,7 +75,7 @@ Proof.
   assert (Hc : is_inst k c) by (apply H; left; reflexivity).
   assert (Hr : shape_insts k r) by (apply IH; intros x Hx; apply H; right; exact Hx).
   destruct k as [h ws a|h ks a]; cbn in Hc.
-  - destruct Hc as [w E]. subst. apply SI_def. exact Hr.
+  - destruct Hc as [w [E Hd]]. subst. apply SI_def; assumption.
   - destruct Hc as [os [E Hs]]. subst. apply SI_scope; assumption.
 Qed.
 
@@ -130,30 +139,33 @@ Section Shape.
 
   (* -------------------------------------------------------------- definitions *)
   Lemma def_fetch_value_shape : forall dm h mws a s o,
-    def_fetch_value env dm h mws a s = Ok (Some o) -> exists w, o = dcopy h a w.
+    def_fetch_value env dm h mws a s = Ok (Some o) -> exists w, o = dcopy h a w /\ dep_ok h mws a w.
   Proof.
     intros dm h mws a s o H. unfold def_fetch_value in H.
     destruct (lobj s); [|discriminate]. bind_inv H as rws Hrws.
-    destruct (odeprecated (Def h mws a) && sval_eqb (strings_from_words rws) (strings_from_words mws)); [discriminate|].
-    destruct (get_attr (s_ "type") a) as [| | | | |t]; try (injection H as E; subst; eexists; reflexivity).
-    destruct t; try (injection H as E; subst; eexists; reflexivity).
-    - bind_inv H as cw Hcw. injection H as E. subst. eexists; reflexivity.
+    destruct (odeprecated (Def h mws a) && sval_eqb (strings_from_words rws) (strings_from_words mws)) eqn:Edep; [discriminate|].
+    assert (Hd : dep_ok h mws a rws).
+    { intros Hdep _. rewrite Hdep in Edep. exact Edep. }
+    destruct (get_attr (s_ "type") a) as [| | | | |t] eqn:Et; try (injection H as E; subst; eexists; split; [reflexivity|exact Hd]).
+    destruct t; try (injection H as E; subst; eexists; split; [reflexivity|exact Hd]).
+    - bind_inv H as cw Hcw. injection H as E. subst. eexists; split; [reflexivity|]. intros _ Hc.
+      unfold is_choice_ty in Hc. rewrite Et in Hc. discriminate Hc.
     - destruct (prefixb (s_ "float") printed || prefixb (s_ "int") printed); [|discriminate].
-      injection H as E. subst. eexists; reflexivity.
+      injection H as E. subst. eexists; split; [reflexivity|exact Hd].
   Qed.
 
-  Definition opt_copy (h:hdr) (a:attrs) (x:option obj) : Prop :=
-    match x with None => True | Some o => exists w, o = dcopy h a w end.
+  Definition opt_copy (h:hdr) (mws:list word) (a:attrs) (x:option obj) : Prop :=
+    match x with None => True | Some o => exists w, o = dcopy h a w /\ dep_ok h mws a w end.
 
   Lemma def_fetch_shape : forall h mws a s x,
-    def_fetch env canon false h mws a s = Ok x -> opt_copy h a x.
+    def_fetch env canon false h mws a s = Ok x -> opt_copy h mws a x.
   Proof.
     intros h mws a s x H. unfold def_fetch in H. destruct x as [o|]; [|exact I].
     eapply def_fetch_value_shape. exact H.
   Qed.
 
   Lemma def_loop_shape : forall h mws a ms last x,
-    opt_copy h a last -> def_loop env canon false h mws a ms last = Ok x -> opt_copy h a x.
+    opt_copy h mws a last -> def_loop env canon false h mws a ms last = Ok x -> opt_copy h mws a x.
   Proof.
     intros h mws a ms. induction ms as [|s r IH]; intros last x Hl H; cbn in H.
     - injection H as E. subst. exact Hl.
@@ -290,7 +302,7 @@ Section Shape.
       destruct k as [h mws a|h ks a].
       + bind_inv H as ro Hro. pose proof (def_loop_shape h mws a _ None ro I Hro) as Hs.
         destruct ro as [x|].
-        * injection H as E. subst o. destruct Hs as [w Ew]. subst x. cbn [fst]. apply SB_def_value. exact Em.
+        * injection H as E. subst o. destruct Hs as [w [Ew Hd]]. subst x. cbn [fst]. apply SB_def_value; assumption.
         * cbn [negb andb] in H. destruct (odeprecated (Def h mws a)) eqn:Ed; cbn [negb] in H; injection H as E; subst o; cbn [fst].
           -- apply SB_def_deprecated; assumption.
           -- apply SB_def_master; assumption.
@@ -344,3 +356,94 @@ Section Shape.
     unfold fetch_root in Hoc. apply fetch_scope_shape in Hoc. exact Hoc.
   Qed.
 End Shape.
+
+(* ------------------------------------------------------------------ well-formed masters: unique sibling names *)
+Definition mactive (k:obj) : bool := negb (odis (ohdr k)).
+(* the active objects of one scope carry pairwise different names *)
+Definition uniq_names (l:list obj) : Prop := NoDup (map (fun k => oname (ohdr k)) (filter mactive l)).
+(* ... in the master scope and, recursively, in every active scope below it *)
+Fixpoint wf_obj (o:obj) : Prop :=
+  match o with
+  | Def _ _ _ => True
+  | Scp _ ks _ =>
+      uniq_names ks /\
+      (fix go (l:list obj) : Prop :=
+         match l with [] => True | k :: r => (odis (ohdr k) = false -> wf_obj k) /\ go r end) ks
+  end.
+Definition wf_master (m:list obj) : Prop := wf_obj (root_scope m).
+
+Lemma seen_get_app_none : forall n a b, seen_get n a = None -> seen_get n (a ++ b) = seen_get n b.
+Proof.
+  intros n a b. induction a as [|o r IH]; intros H; [reflexivity|].
+  cbn in *. destruct (eqs (oname (ohdr o)) n); [discriminate|]. apply IH. exact H.
+Qed.
+
+(* with unique sibling names every active object is an entry, exactly once, in master order *)
+Lemma entries_uniq_from : forall l seen,
+  (forall k, In k l -> odis (ohdr k) = false -> seen_get (oname (ohdr k)) seen = None) ->
+  uniq_names l -> entries_from seen l = filter mactive l.
+Proof.
+  induction l as [|k r IH]; intros seen Hs Hu; [reflexivity|].
+  cbn [entries_from filter]. unfold mao_step, mactive at 1. unfold uniq_names in Hu. cbn [filter] in Hu. unfold mactive at 1 in Hu.
+  destruct (odis (ohdr k)) eqn:Ed; cbn [negb] in *.
+  - apply IH; [intros; apply Hs; [right; assumption|assumption]|exact Hu].
+  - rewrite (Hs k (or_introl eq_refl) Ed). f_equal.
+    cbn [map] in Hu. inversion Hu as [|x l' Hnin Hnd]; subst.
+    apply IH; [|exact Hnd].
+    intros k' Hk' Hd'. rewrite seen_get_app_none by (apply Hs; [right; assumption|assumption]).
+    cbn. destruct (eqs (oname (ohdr k)) (oname (ohdr k'))) eqn:E; [|reflexivity].
+    apply f_eqs_eq in E. exfalso. apply Hnin. rewrite E. apply in_map_iff. exists k'. split; [reflexivity|].
+    apply filter_In. split; [exact Hk'|]. unfold mactive. rewrite Hd'. reflexivity.
+Qed.
+
+Lemma entries_uniq : forall l, uniq_names l -> entries l = filter mactive l.
+Proof. intros l H. apply entries_uniq_from; [reflexivity|exact H]. Qed.
+
+(* a disabled master object is no entry: the admissible shapes are those of the master without it *)
+Lemma entries_disabled : forall m1 d m2 seen, odis (ohdr d) = true ->
+  entries_from seen (m1 ++ d :: m2) = entries_from seen (m1 ++ m2).
+Proof.
+  induction m1 as [|k r IH]; intros d m2 seen Hd.
+  - cbn [app entries_from]. unfold mao_step. rewrite Hd. reflexivity.
+  - cbn [app entries_from]. destruct (mao_step seen k); [apply IH; exact Hd|reflexivity|f_equal; apply IH; exact Hd].
+Qed.
+
+Theorem disabled_master_never_set : forall env canon m1 d m2 srcs r,
+  odis (ohdr d) = true ->
+  fetch env canon false (m1 ++ d :: m2) srcs = Ok r -> shape_ok (m1 ++ m2) r.
+Proof.
+  intros env canon m1 d m2 srcs r Hd H. apply fetch_shape in H. inversion H as [ks r0 Hb]; subst.
+  apply SO. unfold entries in *. rewrite entries_disabled in Hb by exact Hd. exact Hb.
+Qed.
+
+(* every object of a result carries the name, kind and attributes of an ACTIVE master object *)
+Lemma shape_block_origin : forall k b o, shape_block k b -> In o b ->
+  oname (ohdr o) = oname (ohdr k) /\ oattrs o = oattrs k /\ is_def o = is_def k /\ odis (ohdr o) = odis (ohdr k).
+Proof.
+  intros k b o H Ho. destruct H as [h ws a Hm Hd|h ws a ws' Hm|h ws a Hm Hd|h ks a os Hm Hs|k insts Hm Hi].
+  - destruct Ho as [E|[]]. subst. auto.
+  - destruct Ho as [E|[]]. subst. auto.
+  - destruct Ho.
+  - destruct Ho as [E|[]]. subst. auto.
+  - destruct Ho as [E|Ho].
+    + subst. destruct k; cbn; auto.
+    + clear Hm. induction Hi as [k|h ws a ws' r Hd Hr IH|h ks a os r Hs Hr IH]; [destruct Ho| |];
+        (destruct Ho as [E|Ho]; [subst; cbn; auto|apply IH; exact Ho]).
+Qed.
+
+Theorem result_objects_from_active_master : forall env canon m srcs r o,
+  fetch env canon false m srcs = Ok r -> In o r ->
+  exists k, In k m /\ odis (ohdr k) = false /\
+            oname (ohdr o) = oname (ohdr k) /\ oattrs o = oattrs k /\ is_def o = is_def k /\ odis (ohdr o) = false.
+Proof.
+  intros env canon m srcs r o H Ho. apply fetch_shape in H. inversion H as [ks r0 Hb]; subst.
+  unfold entries in Hb. remember (entries_from [] m) as es eqn:Ees.
+  assert (Hes : forall k, In k es -> odis (ohdr k) = false /\ In k m).
+  { intros k Hk. subst es. eapply entries_active. exact Hk. }
+  clear Ees H. induction Hb as [|k b ks r Hk Hr IH]; [destruct Ho|].
+  apply in_app_or in Ho. destruct Ho as [Ho|Ho].
+  - destruct (Hes k (or_introl eq_refl)) as [Hd Hin].
+    destruct (shape_block_origin _ _ _ Hk Ho) as [A [B [C D]]].
+    exists k. rewrite D. auto 7.
+  - apply IH; [exact Ho|]. intros k' Hk'. apply Hes. right. exact Hk'.
+Qed.
